@@ -166,9 +166,6 @@ Definition abs (s : st) : qst :=
   mkQ (timers s) (laters s) (run_timers s ++ run_laters s) (ios s) (sigs s) (procs s)
       (next_id s) (now s) (iter s) (log s).
 
-Lemma abs_notify : forall s w, abs (notify_unbind s w) = q_notify (abs s) w.
-Proof. intros s w. unfold notify_unbind, q_notify. destruct (w_unbind w); reflexivity. Qed.
-
 Lemma Below_parts : forall s, Below s ->
   Forall (fun w => w_id w < next_id s) (timers s) /\ Forall (fun w => w_id w < next_id s) (run_timers s) /\
   Forall (fun w => w_id w < next_id s) (laters s) /\ Forall (fun w => w_id w < next_id s) (run_laters s) /\
@@ -178,84 +175,21 @@ Proof. intros s H. unfold Below, all_lists in H. rewrite !Forall_app in H. tauto
 
 Section Refine.
 Variable env : Z -> list action.
+Variable uenv : Z -> list action.
 
-(* ---- cancel *)
-Lemma abs_cancel : forall s id, WF s -> abs (watch_cancel s id) = q_cancel (abs s) id.
+(* ---- registrations *)
+Lemma abs_reg : forall s a, WF s -> abs (do_reg false s a) = q_reg (abs s) a.
 Proof.
-  intros s id [Hu _ _]. specialize (Hu id). unfold cnt_all in Hu.
-  unfold watch_cancel, q_cancel. cbn [abs q_pq q_def q_snap q_ios q_sigs q_procs].
-  rewrite find_remove_app.
-  destruct (find_remove id (ios s)) as [[w l]|] eqn:E1.
-  { pose proof (find_remove_some_cnt _ _ _ _ E1) as C.
-    assert (N1 : find_remove id (timers s) = None) by (apply find_remove_none_cnt; lia).
-    assert (N2 : find_remove id (laters s) = None) by (apply find_remove_none_cnt; lia).
-    assert (N3 : find_remove id (run_timers s) = None) by (apply find_remove_none_cnt; lia).
-    assert (N4 : find_remove id (run_laters s) = None) by (apply find_remove_none_cnt; lia).
-    rewrite N1, N2, N3, N4. rewrite abs_notify. reflexivity. }
-  destruct (find_remove id (timers s)) as [[w l]|] eqn:E2.
-  { rewrite abs_notify. reflexivity. }
-  destruct (find_remove id (run_timers s)) as [[w l]|] eqn:E3.
-  { pose proof (find_remove_some_cnt _ _ _ _ E3) as C.
-    assert (N2 : find_remove id (laters s) = None) by (apply find_remove_none_cnt; lia).
-    rewrite N2. rewrite abs_notify. reflexivity. }
-  destruct (find_remove id (laters s)) as [[w l]|] eqn:E4.
-  { rewrite abs_notify. reflexivity. }
-  destruct (find_remove id (run_laters s)) as [[w l]|] eqn:E5.
-  { rewrite abs_notify. reflexivity. }
-  destruct (find_remove id (sigs s)) as [[w l]|] eqn:E6.
-  { rewrite abs_notify. reflexivity. }
-  destruct (find_remove id (procs s)) as [[w l]|] eqn:E7.
-  { rewrite abs_notify. reflexivity. }
-  reflexivity.
-Qed.
-
-(* ---- actions *)
-Lemma abs_action : forall s a, WF s -> abs (do_action false s a) = q_action (abs s) a.
-Proof.
-  intros s a H. destruct a as [d fl cb|fl cb|k x fl cb|id|]; cbn [do_action q_action].
+  intros s a H. destruct a as [d fl cb|fl cb|k x fl cb|id|]; cbn [do_reg q_reg]; try reflexivity.
   - unfold abs. cbn [timers laters run_timers run_laters ios sigs procs next_id now iter log set_next set_timers q_pq q_next q_now].
     rewrite timer_insert_pq; [reflexivity|].
     destruct (Below_parts s (wf_below s H)) as [Ht _]. exact Ht.
-  - reflexivity.
   - destruct k; reflexivity.
-  - apply abs_cancel. exact H.
-  - reflexivity.
 Qed.
 
-(* ---- WF is preserved *)
-Lemma cnt_all_notify : forall s w id, cnt_all (notify_unbind s w) id = cnt_all s id.
-Proof. intros. unfold notify_unbind. destruct (w_unbind w); reflexivity. Qed.
-
-Lemma notify_timers : forall s w, timers (notify_unbind s w) = timers s.
-Proof. intros. unfold notify_unbind. destruct (w_unbind w); reflexivity. Qed.
-
-Lemma WF_cancel : forall s id, WF s -> WF (watch_cancel s id).
+Lemma WF_reg : forall s a, WF s -> WF (do_reg false s a).
 Proof.
-  intros s id H. destruct H as [Hu Hb Hs].
-  constructor.
-  - intros i. specialize (Hu i). unfold watch_cancel.
-    repeat match goal with
-    | |- context [match find_remove ?a ?l with _ => _ end] =>
-        let E := fresh "E" in destruct (find_remove a l) as [[? ?]|] eqn:E;
-        [rewrite cnt_all_notify; unfold cnt_all in *; cbn [timers run_timers laters run_laters ios sigs procs
-           set_ios set_timers set_run_timers set_laters set_run_laters set_sigs set_procs];
-         pose proof (find_remove_cnt _ _ _ _ E i); lia|]
-    end.
-    exact Hu.
-  - exact (proj1 (Below_cancel s id Hb)).
-  - unfold watch_cancel.
-    repeat match goal with
-    | |- context [match find_remove ?a ?l with _ => _ end] =>
-        let E := fresh "E" in destruct (find_remove a l) as [[? ?]|] eqn:E;
-        [rewrite notify_timers; cbn [timers set_ios set_timers set_run_timers set_laters set_run_laters set_sigs set_procs];
-         first [exact Hs | eapply xsorted_find_remove; eassumption]|]
-    end.
-    exact Hs.
-Qed.
-
-Lemma WF_action : forall s a, WF s -> WF (do_action false s a).
-Proof.
-  intros s a H. destruct a as [d fl cb|fl cb|k x fl cb|id|]; cbn [do_action]; try exact H.
+  intros s a H. destruct a as [d fl cb|fl cb|k x fl cb|id|]; cbn [do_reg]; try exact H.
   - destruct H as [Hu Hb Hs]. destruct (Below_parts s Hb) as [B1 [B2 [B3 [B4 [B5 [B6 B7]]]]]].
     constructor.
     + intros i. specialize (Hu i). unfold cnt_all in *.
@@ -264,10 +198,10 @@ Proof.
       apply Z.eqb_eq in E. subst i.
       rewrite (cnt_below _ _ _ B1), (cnt_below _ _ _ B2), (cnt_below _ _ _ B3), (cnt_below _ _ _ B4),
               (cnt_below _ _ _ B5), (cnt_below _ _ _ B6), (cnt_below _ _ _ B7) by lia. lia.
-    + exact (proj1 (Below_action false s (ATimer d fl cb) Hb)).
+    + exact (proj1 (Below_reg false s (ATimer d fl cb) Hb)).
     + cbn [timers set_next set_timers]. apply xsorted_timer_insert. exact Hs.
   - destruct H as [Hu Hb Hs]. destruct (Below_parts s Hb) as [B1 [B2 [B3 [B4 [B5 [B6 B7]]]]]].
-    constructor; [|exact (proj1 (Below_action false s (ALater fl cb) Hb))|exact Hs].
+    constructor; [|exact (proj1 (Below_reg false s (ALater fl cb) Hb))|exact Hs].
     intros i. specialize (Hu i). unfold cnt_all in *.
     cbn [timers run_timers laters run_laters ios sigs procs set_next set_laters].
     rewrite cnt_insert_watch. unfold hit. cbn [w_id]. destruct (next_id s =? i) eqn:E; [|lia].
@@ -283,14 +217,117 @@ Proof.
            apply Z.eqb_eq in E; subst i;
            rewrite (cnt_below _ _ _ B1), (cnt_below _ _ _ B2), (cnt_below _ _ _ B3), (cnt_below _ _ _ B4),
                    (cnt_below _ _ _ B5), (cnt_below _ _ _ B6), (cnt_below _ _ _ B7) by lia; lia).
-    + exact (proj1 (Below_action false s (AWatch KIo x fl cb) Hb)).
-    + exact (proj1 (Below_action false s (AWatch KSig x fl cb) Hb)).
-    + exact (proj1 (Below_action false s (AWatch KProc x fl cb) Hb)).
-  - apply WF_cancel. exact H.
+    + exact (proj1 (Below_reg false s (AWatch KIo x fl cb) Hb)).
+    + exact (proj1 (Below_reg false s (AWatch KSig x fl cb) Hb)).
+    + exact (proj1 (Below_reg false s (AWatch KProc x fl cb) Hb)).
+Qed.
+
+Lemma sim_regs : forall l s, WF s -> abs (do_regs false s l) = q_regs (abs s) l /\ WF (do_regs false s l).
+Proof.
+  induction l as [|a l IH]; intros s H; [split; [reflexivity|exact H]|].
+  unfold do_regs, q_regs in *. cbn [fold_left]. rewrite <- (abs_reg s a H). apply IH. apply WF_reg. exact H.
+Qed.
+
+(* ---- the UNBIND notification *)
+Lemma WF_emit : forall s w f, WF s -> WF (emit s w f).
+Proof. intros s w f [Hu Hb Hs]. constructor; assumption. Qed.
+
+Lemma sim_notify : forall s w, WF s ->
+  abs (notify_unbind false uenv s w) = q_notify uenv (abs s) w /\ WF (notify_unbind false uenv s w).
+Proof.
+  intros s w H. unfold notify_unbind, q_notify. destruct (w_unbind w); [|split; [reflexivity|exact H]].
+  destruct (sim_regs (uenv (w_cb w)) (emit s w EV_UNBIND) (WF_emit s w EV_UNBIND H)) as [A1 A2].
+  split; [rewrite A1; reflexivity|exact A2].
+Qed.
+
+(* removing a watch from one of the queues keeps the state well-formed *)
+Ltac wf_removed E :=
+  match goal with H : WF ?s |- WF _ =>
+    let Hu := fresh "Hu" in let Hb := fresh "Hb" in let Hs := fresh "Hs" in
+    destruct H as [Hu Hb Hs];
+    let B1 := fresh in let B2 := fresh in let B3 := fresh in let B4 := fresh in let B5 := fresh in let B6 := fresh in let B7 := fresh in
+    destruct (Below_parts s Hb) as [B1 [B2 [B3 [B4 [B5 [B6 B7]]]]]];
+    constructor;
+    [ let i := fresh "i" in intros i; specialize (Hu i); unfold cnt_all in *;
+      cbn [timers run_timers laters run_laters ios sigs procs set_ios set_timers set_run_timers set_laters set_run_laters set_sigs set_procs];
+      pose proof (find_remove_cnt _ _ _ _ E i); lia
+    | unfold Below, all_lists;
+      cbn [timers run_timers laters run_laters ios sigs procs next_id set_ios set_timers set_run_timers set_laters set_run_laters set_sigs set_procs];
+      rewrite !Forall_app;
+      repeat split; try assumption;
+      match goal with |- Forall _ ?l => eapply (proj2 (find_remove_forall _ _ _ _ _ E _)) end
+    | cbn [timers set_ios set_timers set_run_timers set_laters set_run_laters set_sigs set_procs];
+      first [exact Hs | eapply xsorted_find_remove; eassumption] ]
+  end.
+
+Lemma WF_rm_ios : forall s id w l, WF s -> find_remove id (ios s) = Some (w, l) -> WF (set_ios s l).
+Proof. intros s id w l H E. wf_removed E. Unshelve. all: eassumption. Qed.
+Lemma WF_rm_timers : forall s id w l, WF s -> find_remove id (timers s) = Some (w, l) -> WF (set_timers s l).
+Proof. intros s id w l H E. wf_removed E. Unshelve. all: eassumption. Qed.
+Lemma WF_rm_run_timers : forall s id w l, WF s -> find_remove id (run_timers s) = Some (w, l) -> WF (set_run_timers s l).
+Proof. intros s id w l H E. wf_removed E. Unshelve. all: eassumption. Qed.
+Lemma WF_rm_laters : forall s id w l, WF s -> find_remove id (laters s) = Some (w, l) -> WF (set_laters s l).
+Proof. intros s id w l H E. wf_removed E. Unshelve. all: eassumption. Qed.
+Lemma WF_rm_run_laters : forall s id w l, WF s -> find_remove id (run_laters s) = Some (w, l) -> WF (set_run_laters s l).
+Proof. intros s id w l H E. wf_removed E. Unshelve. all: eassumption. Qed.
+Lemma WF_rm_sigs : forall s id w l, WF s -> find_remove id (sigs s) = Some (w, l) -> WF (set_sigs s l).
+Proof. intros s id w l H E. wf_removed E. Unshelve. all: eassumption. Qed.
+Lemma WF_rm_procs : forall s id w l, WF s -> find_remove id (procs s) = Some (w, l) -> WF (set_procs s l).
+Proof. intros s id w l H E. wf_removed E. Unshelve. all: eassumption. Qed.
+
+(* ---- cancel *)
+Lemma sim_cancel : forall s id, WF s ->
+  abs (watch_cancel false uenv s id) = q_cancel uenv (abs s) id /\ WF (watch_cancel false uenv s id).
+Proof.
+  intros s id H. pose proof (wf_uniq _ H id) as Hu. unfold cnt_all in Hu.
+  unfold watch_cancel, q_cancel. cbn [abs q_pq q_def q_snap q_ios q_sigs q_procs].
+  rewrite find_remove_app.
+  destruct (find_remove id (ios s)) as [[w l]|] eqn:E1.
+  { pose proof (find_remove_some_cnt _ _ _ _ E1) as C.
+    assert (N1 : find_remove id (timers s) = None) by (apply find_remove_none_cnt; lia).
+    assert (N2 : find_remove id (laters s) = None) by (apply find_remove_none_cnt; lia).
+    assert (N3 : find_remove id (run_timers s) = None) by (apply find_remove_none_cnt; lia).
+    assert (N4 : find_remove id (run_laters s) = None) by (apply find_remove_none_cnt; lia).
+    rewrite N1, N2, N3, N4.
+    destruct (sim_notify (set_ios s l) w (WF_rm_ios s id w l H E1)) as [A1 A2]. split; [rewrite A1; reflexivity|exact A2]. }
+  destruct (find_remove id (timers s)) as [[w l]|] eqn:E2.
+  { destruct (sim_notify (set_timers s l) w (WF_rm_timers s id w l H E2)) as [A1 A2]. split; [rewrite A1; reflexivity|exact A2]. }
+  destruct (find_remove id (run_timers s)) as [[w l]|] eqn:E3.
+  { pose proof (find_remove_some_cnt _ _ _ _ E3) as C.
+    assert (N2 : find_remove id (laters s) = None) by (apply find_remove_none_cnt; lia).
+    rewrite N2.
+    destruct (sim_notify (set_run_timers s l) w (WF_rm_run_timers s id w l H E3)) as [A1 A2]. split; [rewrite A1; reflexivity|exact A2]. }
+  destruct (find_remove id (laters s)) as [[w l]|] eqn:E4.
+  { destruct (sim_notify (set_laters s l) w (WF_rm_laters s id w l H E4)) as [A1 A2]. split; [rewrite A1; reflexivity|exact A2]. }
+  destruct (find_remove id (run_laters s)) as [[w l]|] eqn:E5.
+  { destruct (sim_notify (set_run_laters s l) w (WF_rm_run_laters s id w l H E5)) as [A1 A2]. split; [rewrite A1; reflexivity|exact A2]. }
+  destruct (find_remove id (sigs s)) as [[w l]|] eqn:E6.
+  { destruct (sim_notify (set_sigs s l) w (WF_rm_sigs s id w l H E6)) as [A1 A2]. split; [rewrite A1; reflexivity|exact A2]. }
+  destruct (find_remove id (procs s)) as [[w l]|] eqn:E7.
+  { destruct (sim_notify (set_procs s l) w (WF_rm_procs s id w l H E7)) as [A1 A2]. split; [rewrite A1; reflexivity|exact A2]. }
+  split; [reflexivity|exact H].
+Qed.
+
+Lemma WF_cancel : forall s id, WF s -> WF (watch_cancel false uenv s id).
+Proof. intros s id H. exact (proj2 (sim_cancel s id H)). Qed.
+
+(* ---- actions *)
+Lemma abs_action : forall s a, WF s -> abs (do_action false uenv s a) = q_action uenv (abs s) a.
+Proof.
+  intros s a H. destruct a as [d fl cb|fl cb|k x fl cb|id|]; cbn [do_action q_action];
+    try (apply abs_reg; exact H).
+  exact (proj1 (sim_cancel s id H)).
+Qed.
+
+Lemma WF_action : forall s a, WF s -> WF (do_action false uenv s a).
+Proof.
+  intros s a H. destruct a as [d fl cb|fl cb|k x fl cb|id|]; cbn [do_action];
+    try (apply WF_reg; exact H).
+  apply WF_cancel. exact H.
 Qed.
 
 Lemma sim_actions : forall l s, WF s ->
-  abs (do_actions false s l) = q_actions (abs s) l /\ WF (do_actions false s l).
+  abs (do_actions false uenv s l) = q_actions uenv (abs s) l /\ WF (do_actions false uenv s l).
 Proof.
   induction l as [|a l IH]; intros s H; [split; [reflexivity|exact H]|].
   unfold do_actions, q_actions in *. cbn [fold_left].
@@ -300,7 +337,7 @@ Qed.
 (* ---- the two loops of the model do not depend on their fuel once it covers the queue *)
 Lemma run_timers_loop_fuel : forall n n' s,
   (length (run_timers s) <= n)%nat -> (length (run_timers s) <= n')%nat ->
-  run_timers_loop false env n s = run_timers_loop false env n' s.
+  run_timers_loop false env uenv n s = run_timers_loop false env uenv n' s.
 Proof.
   induction n as [|n IH]; intros n' s Hn Hn'.
   - destruct (run_timers s) as [|w r] eqn:Er; [|cbn in Hn; lia].
@@ -309,14 +346,14 @@ Proof.
     + destruct (run_timers s) as [|w r] eqn:Er; [|cbn in Hn'; lia].
       cbn [run_timers_loop]. rewrite Er. reflexivity.
     + cbn [run_timers_loop]. destruct (run_timers s) as [|w r] eqn:Er; [reflexivity|].
-      destruct (actions_run_len false (env (w_cb w)) (emit (set_run_timers s r) w (EV_FIRE + EV_UNBIND))) as [L1 _].
+      destruct (actions_run_len false uenv (env (w_cb w)) (emit (set_run_timers s r) w (EV_FIRE + EV_UNBIND))) as [L1 _].
       cbn [run_timers emit set_log set_run_timers] in L1. cbn in Hn, Hn'.
       apply IH; (eapply Nat.le_trans; [exact L1|]); lia.
 Qed.
 
 Lemma run_laters_loop_fuel : forall n n' s,
   (length (run_laters s) <= n)%nat -> (length (run_laters s) <= n')%nat ->
-  run_laters_loop false env n s = run_laters_loop false env n' s.
+  run_laters_loop false env uenv n s = run_laters_loop false env uenv n' s.
 Proof.
   induction n as [|n IH]; intros n' s Hn Hn'.
   - destruct (run_laters s) as [|w r] eqn:Er; [|cbn in Hn; lia].
@@ -325,26 +362,26 @@ Proof.
     + destruct (run_laters s) as [|w r] eqn:Er; [|cbn in Hn'; lia].
       cbn [run_laters_loop]. rewrite Er. reflexivity.
     + cbn [run_laters_loop]. destruct (run_laters s) as [|w r] eqn:Er; [reflexivity|].
-      destruct (actions_run_len false (env (w_cb w)) (emit (set_run_laters s r) w (EV_FIRE + EV_UNBIND))) as [_ L2].
+      destruct (actions_run_len false uenv (env (w_cb w)) (emit (set_run_laters s r) w (EV_FIRE + EV_UNBIND))) as [_ L2].
       cbn [run_laters emit set_log set_run_laters] in L2. cbn in Hn, Hn'.
       apply IH; (eapply Nat.le_trans; [exact L2|]); lia.
 Qed.
 
 (* what tickit_evloop_invoke_timers does once the queues are detached *)
 Definition finish (s : st) : st :=
-  let s1 := run_timers_loop false env (length (run_timers s)) s in
-  run_laters_loop false env (length (run_laters s1)) s1.
+  let s1 := run_timers_loop false env uenv (length (run_timers s)) s in
+  run_laters_loop false env uenv (length (run_laters s1)) s1.
 
 Definition pop_timer (s : st) (w : watch) (r : list watch) : st :=
-  do_actions false (emit (set_run_timers s r) w (EV_FIRE + EV_UNBIND)) (env (w_cb w)).
+  do_actions false uenv (emit (set_run_timers s r) w (EV_FIRE + EV_UNBIND)) (env (w_cb w)).
 Definition pop_later (s : st) (w : watch) (r : list watch) : st :=
-  do_actions false (emit (set_run_laters s r) w (EV_FIRE + EV_UNBIND)) (env (w_cb w)).
+  do_actions false uenv (emit (set_run_laters s r) w (EV_FIRE + EV_UNBIND)) (env (w_cb w)).
 
 Lemma finish_step_timer : forall s w r, run_timers s = w :: r -> finish s = finish (pop_timer s w r).
 Proof.
   intros s w r Er. unfold finish. rewrite Er. cbn [length run_timers_loop]. rewrite Er.
   fold (pop_timer s w r).
-  destruct (actions_run_len false (env (w_cb w)) (emit (set_run_timers s r) w (EV_FIRE + EV_UNBIND))) as [L1 _].
+  destruct (actions_run_len false uenv (env (w_cb w)) (emit (set_run_timers s r) w (EV_FIRE + EV_UNBIND))) as [L1 _].
   cbn [run_timers emit set_log set_run_timers] in L1. fold (pop_timer s w r) in L1.
   rewrite (run_timers_loop_fuel (length r) (length (run_timers (pop_timer s w r))) (pop_timer s w r) L1 (le_n _)).
   reflexivity.
@@ -354,7 +391,7 @@ Lemma finish_step_later : forall s w r, run_timers s = [] -> run_laters s = w ::
 Proof.
   intros s w r Et Er. unfold finish. rewrite Et. cbn [length run_timers_loop]. rewrite Er.
   cbn [length run_laters_loop]. rewrite Er. fold (pop_later s w r).
-  destruct (actions_run_len false (env (w_cb w)) (emit (set_run_laters s r) w (EV_FIRE + EV_UNBIND))) as [L1 L2].
+  destruct (actions_run_len false uenv (env (w_cb w)) (emit (set_run_laters s r) w (EV_FIRE + EV_UNBIND))) as [L1 L2].
   cbn [run_timers run_laters emit set_log set_run_laters] in L1, L2. fold (pop_later s w r) in L1, L2.
   rewrite Et in L1. cbn in L1.
   assert (Et2 : run_timers (pop_later s w r) = []) by (destruct (run_timers (pop_later s w r)); [reflexivity|cbn in L1; lia]).
@@ -393,7 +430,7 @@ Definition q_popped (q : qst) (r : list watch) : qst :=
   mkQ (q_pq q) (q_def q) r (q_ios q) (q_sigs q) (q_procs q) (q_next q) (q_now q) (q_iter q) (q_log q).
 
 Lemma q_loop_step : forall k q w r, q_snap q = w :: r ->
-  q_loop env (S k) q = q_loop env k (q_actions (q_emit (q_popped q r) w (EV_FIRE + EV_UNBIND)) (env (w_cb w))).
+  q_loop env uenv (S k) q = q_loop env uenv k (q_actions uenv (q_emit (q_popped q r) w (EV_FIRE + EV_UNBIND)) (env (w_cb w))).
 Proof. intros k q w r H. cbn [q_loop]. rewrite H. reflexivity. Qed.
 
 Lemma abs_pop_later : forall s w r f, run_timers s = [] ->
@@ -410,7 +447,7 @@ Lemma abs_pop_timer : forall s w r f,
 Proof. reflexivity. Qed.
 
 Lemma sim_finish : forall k s, WF s -> (length (run_timers s) + length (run_laters s) <= k)%nat ->
-  abs (finish s) = q_loop env k (abs s) /\ WF (finish s).
+  abs (finish s) = q_loop env uenv k (abs s) /\ WF (finish s).
 Proof.
   induction k as [|k IH]; intros s H Hk.
   - assert (Et : run_timers s = []) by (destruct (run_timers s); [reflexivity|cbn in Hk; lia]).
@@ -423,7 +460,7 @@ Proof.
       * rewrite (finish_step_later s w r Et Er).
         pose proof (WF_pop_later_pre s w r H Er) as H1.
         destruct (sim_actions (env (w_cb w)) _ H1) as [A1 A2]. fold (pop_later s w r) in A1, A2.
-        destruct (actions_run_len false (env (w_cb w)) (emit (set_run_laters s r) w (EV_FIRE + EV_UNBIND))) as [L1 L2].
+        destruct (actions_run_len false uenv (env (w_cb w)) (emit (set_run_laters s r) w (EV_FIRE + EV_UNBIND))) as [L1 L2].
         cbn [run_timers run_laters emit set_log set_run_laters] in L1, L2. fold (pop_later s w r) in L1, L2.
         rewrite Et in L1. cbn [length] in Hk, L1.
         destruct (IH (pop_later s w r) A2) as [I1 I2]; [lia|].
@@ -433,7 +470,7 @@ Proof.
     + rewrite (finish_step_timer s w r Et).
       pose proof (WF_pop_timer_pre s w r H Et) as H1.
       destruct (sim_actions (env (w_cb w)) _ H1) as [A1 A2]. fold (pop_timer s w r) in A1, A2.
-      destruct (actions_run_len false (env (w_cb w)) (emit (set_run_timers s r) w (EV_FIRE + EV_UNBIND))) as [L1 L2].
+      destruct (actions_run_len false uenv (env (w_cb w)) (emit (set_run_timers s r) w (EV_FIRE + EV_UNBIND))) as [L1 L2].
       cbn [run_timers run_laters emit set_log set_run_timers] in L1, L2. fold (pop_timer s w r) in L1, L2.
       cbn [length] in Hk.
       destruct (IH (pop_timer s w r) A2) as [I1 I2]; [lia|].
@@ -455,7 +492,7 @@ Definition detached (s : st) : st :=
        (filter (fun w => w_x w <=? now s) (timers s)) (laters s) (next_id s) (now s) (iter s) (log s).
 
 Lemma invoke_timers_finish : forall s, run_timers s = [] -> run_laters s = [] -> xsorted (timers s) ->
-  invoke_timers false env s = finish (detached s).
+  invoke_timers false env uenv s = finish (detached s).
 Proof.
   intros s Et Er Hs. destruct s as [ts ls io sg pr rt rl nx nw it lg]. cbn in Et, Er, Hs. subst rt rl.
   unfold invoke_timers, finish, detached.
@@ -484,7 +521,7 @@ Proof.
 Qed.
 
 Lemma sim_tick : forall sleep dt s, WF s -> run_timers s = [] -> run_laters s = [] ->
-  abs (tick false env sleep dt s) = q_tick env sleep dt (abs s) /\ WF (tick false env sleep dt s).
+  abs (tick false env uenv sleep dt s) = q_tick env uenv sleep dt (abs s) /\ WF (tick false env uenv sleep dt s).
 Proof.
   intros sleep dt s H Et Er. unfold tick.
   set (s1 := set_iter (set_now s (now s + dt)) (iter s + 1)).
@@ -512,7 +549,7 @@ Qed.
 
 (* ---- whole scripts *)
 Lemma sim_op : forall s o, WF s -> run_timers s = [] -> run_laters s = [] ->
-  abs (do_op false env s o) = q_op env (abs s) o /\ WF (do_op false env s o).
+  abs (do_op false env uenv s o) = q_op env uenv (abs s) o /\ WF (do_op false env uenv s o).
 Proof.
   intros s o H Et Er. destruct o as [a|dt|]; cbn [do_op q_op].
   - split; [apply abs_action; exact H|apply WF_action; exact H].
@@ -523,12 +560,12 @@ Qed.
 Lemma WF_st0 : WF st0.
 Proof. constructor; [intros id; cbn; lia|apply Below_st0|constructor]. Qed.
 
-Lemma sim_run_ops : forall ops, abs (run_ops false env ops) = q_run_ops env ops /\ WF (run_ops false env ops).
+Lemma sim_run_ops : forall ops, abs (run_ops false env uenv ops) = q_run_ops env uenv ops /\ WF (run_ops false env uenv ops).
 Proof.
   intros ops. unfold run_ops, q_run_ops.
   assert (G : forall ops s, WF s -> Quiet s ->
-              abs (fold_left (do_op false env) ops s) = fold_left (q_op env) ops (abs s) /\
-              WF (fold_left (do_op false env) ops s)).
+              abs (fold_left (do_op false env uenv) ops s) = fold_left (q_op env uenv) ops (abs s) /\
+              WF (fold_left (do_op false env uenv) ops s)).
   { induction ops0 as [|o r IH]; intros s H Q; [split; [reflexivity|exact H]|].
     cbn [fold_left]. destruct Q as [QI [Et Er]].
     destruct (sim_op s o H Et Er) as [A1 A2]. rewrite <- A1. apply IH; [exact A2|].
@@ -571,7 +608,7 @@ Proof.
 Qed.
 
 (* C17_refines *)
-Theorem refines : forall ops, run false env ops = qspec_run env ops.
+Theorem refines : forall ops, run false env uenv ops = qspec_run env uenv ops.
 Proof.
   intros ops. unfold run, qspec_run. f_equal.
   destruct (sim_run_ops ops) as [A _]. rewrite <- A. apply sim_destroy.
